@@ -1,2 +1,7 @@
--- Root of the `Eliot` library: models, proofs, property theorems.
+-- Root of the `Eliot` library: every property module (models and proofs are pulled in by them).
+import Eliot.Properties.C04
+import Eliot.Properties.C07
+import Eliot.Properties.C08
 import Eliot.Properties.C09
+import Eliot.Properties.C13
+import Eliot.Properties.C14
